@@ -37,6 +37,8 @@ type c10Case struct {
 	// Uid: 0 or 65534 (an unprivileged load without no_new_privs is refused by the kernel: nothing is claimed then, but
 	// it must not turn into a successful load with another flag word)
 	Uid int `json:"uid,omitempty"`
+	// Uname26: the process reports a 2.6 kernel release (UNAME26 personality)
+	Uname26 bool `json:"uname26,omitempty"`
 	// EnosysFault: seccomp(2) fails with ENOSYS in the whole process (outer sandbox / old kernel).
 	EnosysFault bool `json:"enosys_fault"`
 }
@@ -63,6 +65,7 @@ func drawC10(t *rapid.T) c10Case {
 	if rapid.IntRange(0, 3).Draw(t, "unprivileged") == 0 {
 		c.Uid, c.Strace = 65534, false
 	}
+	c.Uname26 = rapid.IntRange(0, 4).Draw(t, "uname26") == 0
 	var n int
 	switch k := rapid.IntRange(0, 9).Draw(t, "nClass"); {
 	case k < 4:
@@ -147,7 +150,7 @@ func checkC10(raw json.RawMessage) (ev.Result, error) {
 		pol.Groups = append(pol.Groups, spec.Group{Action: actLog, Names: []string{"getgid"}})
 	}
 	priorSynced := c.Divergent && c.PriorKind == "same-thread-tsync"
-	job := &kjob.Job{GOMAXPROCS: c.GOMAXPROCS, Steps: []kjob.Step{
+	job := &kjob.Job{GOMAXPROCS: c.GOMAXPROCS, Uname26: c.Uname26, Steps: []kjob.Step{
 		{Op: "mkthreads", N: 2},
 		{Op: "states", States: sts},
 		fault,
@@ -178,6 +181,9 @@ func checkC10(raw json.RawMessage) (ev.Result, error) {
 	res := ev.Result{Classes: []string{fmt.Sprintf("flag:%d", c.Flag), fmt.Sprintf("gomaxprocs:%d", c.GOMAXPROCS), fmt.Sprintf("uid:%d", c.Uid)}}
 	if c.Uid != 0 && !c.NNP {
 		res.Classes = append(res.Classes, "unprivileged-without-no-new-privs")
+	}
+	if c.Uname26 {
+		res.Classes = append(res.Classes, "process-reports-a-2.6-kernel-release", fmt.Sprintf("uname26/flag:%d", c.Flag))
 	}
 	if priorSynced {
 		if pl := rr.Find(2, "load"); len(pl) != 1 || !pl[0].Nil {
